@@ -56,11 +56,13 @@ ASSUMPTIONS = [
     'non-constant, non-readonly parameters without references (guards are C14/C02/C08)',
     'value domain: None, bool, int, float (nan, +-inf), Fraction, finite/infinite Decimal, str, bytes, list, tuple, dict, naive '
     'date/datetime, plain functions, generator functions, user classes and their instances; excluded: complex, Decimal("nan") '
-    '(ordering raises InvalidOperation), tz-aware datetimes, numpy scalars, callables that refuse attribute assignment '
+    'and a Decimal next to a float NaN in one Range pair (ordering them raises decimal.InvalidOperation), tz-aware datetimes, numpy scalars, callables that refuse attribute assignment '
     '(Dynamic documents that requirement)',
     'declarations: hard bounds are bool/int/float (Number family) or date/datetime; softbounds, Number/Date step, set_hook, '
     'compute_default_fn, dict-declared Selector objects, NaN among Selector objects, List(class_=...) alias are not exercised',
     'colour strings are ASCII (str.lower is modelled on ASCII)',
+    'Selector/ListSelector declared with a default but with empty objects and no explicit check_on_set is not exercised: the '
+    'check_on_set slot is computed lazily, after the default has been appended to the objects, and ends up True',
 ]
 RULE = ('directed prefix (one case per validator branch, the witnesses of the findings, invalid defaults) + exhaustive small-scope grid: '
         'Number/Integer bounds from {None,-1,0,1,2,-inf,inf}^2 x 4 inclusivities x allow_None on/off x ~60 values (None, bools, ints, '
@@ -434,6 +436,12 @@ BOUND_VALUES = [None, -1, 0, 1, 2, -INF, INF]
 INCL = [(True, True), (True, False), (False, True), (False, False)]
 
 
+def integer_pool():
+    vals = [None, True, False, -2, -1, 0, 1, 2, 3, -1.0, 0.0, 1.0, 2.0, 0.5, NAN, INF, -INF, Fraction(1), Fraction(1, 2), Decimal(1),
+            10**30, 2**53 + 1, math.nextafter(1.0, INF), math.nextafter(0.0, -INF)]
+    return vals + JUNK
+
+
 def number_grid(ptype, bound_values=BOUND_VALUES, pool=None):
     pool = pool or [E(v) for v in numeric_pool()]
     k = 0
@@ -627,9 +635,11 @@ def selector_cases():
                     yield mk('Selector', dict(args, **A(default=E(objs[-1]))), pool)
                     yield mk('Selector', dict(args, **A(default=None)), pool)
                     yield mk('ListSelector', dict(args, **A(default=E([objs[-1]]))), lpool)
-                yield mk('Selector', dict(args, **A(default=E(77))), pool)
-                yield mk('ListSelector', dict(args, **A(default=E([77]))), lpool)
-                yield mk('ListSelector', dict(args, **A(default=E(77))), lpool)
+                if objs or cos != 'absent':
+                    # (objects=[] + default + no explicit check_on_set is outside the domain: see ASSUMPTIONS)
+                    yield mk('Selector', dict(args, **A(default=E(77))), pool)
+                    yield mk('ListSelector', dict(args, **A(default=E([77]))), lpool)
+                    yield mk('ListSelector', dict(args, **A(default=E(77))), lpool)
     yield mk('Selector', {}, pool)
     yield mk('ListSelector', {}, lpool)
 
@@ -766,6 +776,7 @@ def directed():
     yield mk('Number', A(default=E(NAN), bounds=[E(0), None]), num)
     yield mk('Number', A(default=E(NAN)), num)
     yield mk('Number', A(default=E(0), bounds=[E(Fraction(0)), E(Fraction(1))]), num)    # Fraction bounds (outside the declared domain, still exact)
+    yield mk('Number', A(default=None, bounds=[E(D0), None]), num)                       # ill-typed bound: the comparison raises TypeError
     yield mk('Integer', A(default=E(1), bounds=[E(0), E(5)]), num)
     yield mk('Integer', A(default=E(1)), [E(GEN)])                                       # finding: generator function
     yield mk('Integer', A(default=E(GEN)), [E(1)])
@@ -890,6 +901,8 @@ def random_case(rng):
                 args.update(A(allow_None=True))
         around = [b for b in (lo, hi) if b is not None]
         vals = [(_rand_number(rng, around), _rand_number(rng, around)) for _ in range(30)]
+        # ordering a Decimal against a float NaN raises decimal.InvalidOperation: outside the value domain
+        vals = [p for p in vals if not (any(isinstance(e, Decimal) for e in p) and any(isinstance(e, float) and e != e for e in p))]
         vals += [rng.choice([None, (), (1,), (0, 1, 2), [0, 1], 5, ('a', 1)])]
         return mk('Range', args, [E(v) for v in vals])
     if fam < 0.8:
@@ -928,7 +941,9 @@ def cases(rng, tier, worker, nworkers):
         for f in sorted(glob.glob(os.path.join(os.path.dirname(__file__), '..', '..', 'corpus', 'C01', '*.json'))):
             yield json.load(open(f))['case']
     streams = [directed(), string_cases(), boolean_cases(), callable_cases(), tuple_cases(), color_cases(),
-               number_grid('Number'), number_grid('Integer'), number_grid('Magnitude', [None, 0, 1]), range_grid(thin=2 if tier == 'quick' else 1),
+               number_grid('Number'),
+               number_grid('Integer', pool=[E(v) for v in integer_pool()] if tier == 'quick' else None),
+               number_grid('Magnitude', [None, 0, 1]), range_grid(thin=3 if tier == 'quick' else 1),
                list_cases(), selector_cases(), classselector_cases(), date_cases()]
     if tier == 'thorough':
         fb = [None, -1, -0.5, 0.0, 0.1, 1, 1.5, -INF, INF, True]
